@@ -43,6 +43,10 @@ func FuzzRT(f *testing.F) {
 		h, inc := RunWithWatchdog(c, m, 30*time.Second)
 		if inc != nil {
 			writeInconclusive(inc.Error())
+			if !settle(90 * time.Second) {
+				writeInconclusive("stopped: an abandoned scheduler is still alive, its hook events would pollute further cases")
+				os.Exit(0)
+			}
 			rt.Skip(inc.Error())
 		}
 		mine, other := relevant(Check(c, h))
